@@ -34,6 +34,7 @@ var registry = map[string]propDef{
 	"C05o": {"other", props.C01offset},
 	"C05q": {"other", props.C05outputs},
 	"C05a": {"other", props.C05walloc},
+	"C05r": {"other", props.C05recycle},
 	"C05l": {"other", props.C05alias},
 	"C05d": {"other", props.C05dispatch},
 	"C05f": {"other", props.C05forms},
@@ -102,6 +103,13 @@ var registry = map[string]propDef{
 	"C07b": {"other", props.C07bitwise},
 	"C07p": {"other", props.C07prefix},
 	"C07h": {"other", props.C07hamming},
+	"C07i": {"other", props.C07index},
+	"C07c": {"other", props.ConstLoops},
+	"C09c": {"other", props.ConstLoops},
+	"C07d": {"other", props.C07dividers},
+	"C09d": {"other", props.C07dividers},
+	"C07e": {"other", props.BuilderErrors},
+	"C09e": {"other", props.BuilderErrors},
 	"C07g": {"other", props.GateHelpers},
 	"C03g": {"other", props.GateHelpers},
 	"C09p": {"other", props.C07prefix},
